@@ -133,6 +133,20 @@ def run_tlc(module, cfg, workdir, workers=8, timeout=1800, env=None, heap="4g", 
     return res
 
 
+def run_apalache(module, inv, workdir, timeout=600, length=0):
+    """Unbounded check of a state invariant with Apalache (bounded length 0 = all initial states)."""
+    out = os.path.join(workdir, "apalache-" + module)
+    shutil.rmtree(out, ignore_errors=True)
+    t0 = time.time()
+    p = subprocess.run(["timeout", str(timeout), "apalache-mc", "check", "--length=%d" % length, "--inv=" + inv,
+                        "--out-dir=" + out, os.path.join(SPEC, module + ".tla")], stdout=subprocess.PIPE, stderr=subprocess.STDOUT, text=True)
+    ok = "The outcome is: NoError" in p.stdout
+    shutil.rmtree(out, ignore_errors=True)
+    if p.returncode == 124:
+        raise ToolError("apalache timed out on " + module)
+    return dict(ok=ok, wall_s=time.time() - t0, tail=p.stdout[-1500:])
+
+
 def run_vh(args, timeout=3600, env=None):
     e = dict(os.environ)
     if env:
@@ -318,7 +332,9 @@ class Run:
                   coverage=self.cov, assumptions=list(assumptions) + ["trusted base: " + ", ".join(trusted)] if trusted else list(assumptions),
                   wall_s=round(time.time() - self.t0, 1), violations=len(seen),
                   known_findings_hit=sorted(listed.keys()))
-        with open(os.path.join(EVID, self.pid + ".json"), "w") as fh:
+        # extra-coverage checks (ids starting with X) are not properties: their evidence stays under work/
+        evdir = EVID if self.pid.startswith("C") else self.work
+        with open(os.path.join(evdir, self.pid + ".json"), "w") as fh:
             json.dump(ev, fh, indent=1, default=str)
         log("[%s] done in %.1fs: %d distinct case classes, %d violation key(s), %d known" %
             (self.pid, time.time() - self.t0, len(self.keys), len(seen), len(listed)))
